@@ -122,6 +122,8 @@ class C12:
             "jitter": rng.choice([1e-6, 0.01, 0.3, 5.0]),
             "opcode": rng.random() < 0.8,
             "columns": rng.choice(["str", "default", "speed"]),
+            # Progress(disable=True) shows nothing; the accounting must not depend on it
+            "disable": rng.random() < 0.12,
         }
         if kind == "seq":
             ntask = rng.randint(1, 4)
@@ -161,6 +163,10 @@ class C12:
             "n": n, "gen": rng.random() < 0.5, "update_period": rng.choice([0.001, 0.1, 1.0]),
             "sleeps": [rng.choice([0, 0, 0.05, 0.2, 2.0]) for _ in range(n)],
             "total_given": rng.random() < 0.3,
+            # how the loop is written: Progress.track on a fresh task, Progress.track(task_id=) on a task
+            # just added by the caller, or the module-level rich.progress.track() (which builds, starts
+            # and stops a Progress of its own around Progress.track)
+            "via": rng.choice(["method", "method", "task_id", "module"]),
         }
         if n and rng.random() < 0.3:
             # the loop is left early, by break or by an exception in its body, while element k is
@@ -242,7 +248,10 @@ class C12:
         progress = Progress(*cols, console=console, auto_refresh=cfg["auto_refresh"],
                             refresh_per_second=cfg["refresh_per_second"],
                             speed_estimate_period=cfg["speed_estimate_period"], get_time=clock.time,
-                            redirect_stdout=False, redirect_stderr=False)
+                            redirect_stdout=False, redirect_stderr=False, disable=cfg.get("disable", False))
+        import rich.progress as _rp
+        if getattr(_rp.Progress, "_dsim_recorder", False):  # left behind by an aborted run
+            _rp.Progress = _rp.Progress.__mro__[1]
         ctx = {
             "clock": clock, "file": f, "progress": progress, "viol": [], "hist": [], "ids": [],
             "probes": {"defect_sample_timestamps_out_of_order": 0, "total_time_zero": 0, "sample_evicted": 0, "reads": 0,
@@ -435,11 +444,33 @@ class C12:
 
             got = []
             try:
-                if owner:
+                via = tr.get("via", "method") if owner else "method"
+                if owner and via != "module":
                     progress.start()
                 src = genf() if tr["gen"] else items
                 total = n if (tr["gen"] or tr["total_given"]) else None
-                it = progress.track(src, total=total, update_period=tr["update_period"], description=desc)
+                mine = progress
+                if via == "module":
+                    import rich.progress as rp
+
+                    made = []
+
+                    class Recorder(rp.Progress):
+                        _dsim_recorder = True
+
+                        def __init__(self, *a, **kw):
+                            super().__init__(*a, **kw)
+                            made.append(self)
+
+                    rp.Progress = Recorder
+                    it = rp.track(src, description=desc, total=total, auto_refresh=cfg["auto_refresh"], console=console,
+                                  get_time=clock.time, refresh_per_second=cfg["refresh_per_second"],
+                                  update_period=tr["update_period"], disable=cfg.get("disable", False))
+                elif via == "task_id":
+                    fresh = progress.add_task(desc, total=100)
+                    it = progress.track(src, total=total, task_id=fresh, update_period=tr["update_period"])
+                else:
+                    it = progress.track(src, total=total, update_period=tr["update_period"], description=desc)
                 j = 0
                 leave = tr.get("leave")
                 try:
@@ -458,7 +489,17 @@ class C12:
                 if leave:
                     it.close()  # what leaving the for statement does once the generator is dropped
                     items = items[:leave[1] + 1]
-                tasks = progress.tasks
+                if via == "module":
+                    rp.Progress = Recorder.__mro__[1]
+                    if len(made) != 1:
+                        if n or made:
+                            viol("track-task", "track-task", "module-level track() built %d Progress objects" % len(made))
+                        mine = None
+                    else:
+                        mine = made[0]
+                tasks = mine.tasks if mine is not None else []
+                if mine is None and not n:
+                    return
                 trk = [t for t in tasks if t.description == desc]
                 if got != items:
                     viol("track-yield", "track-yield", "track yielded %r for input %r" % (got, items))
@@ -481,6 +522,9 @@ class C12:
             finally:
                 if owner:
                     progress.stop()
+                import rich.progress as rp2
+                if owner and getattr(rp2.Progress, "_dsim_recorder", False):
+                    rp2.Progress = rp2.Progress.__mro__[1]
 
         def other_client():
             for k, op in enumerate(case["threads"][1]):
